@@ -55,14 +55,24 @@ func runPSHistory(in *postscript.Interpreter, src []byte, sch sim.Schedule, cuts
 				s2.Cuts = append(s2.Cuts, c-off)
 			}
 		}
-		r := sim.NewSimReader(piece, s2, f, tape)
-		res.Readers = append(res.Readers, r)
+		var err error
 		res.Calls++
-		err := in.Execute(r.Reader())
-		res.Reads += r.Reads
-		res.Multi = res.Multi || r.MultiChunk
-		res.NoProg = res.NoProg || r.NoProgress
-		res.Print = (res.Print ^ r.Fingerprint()) * 1099511628211
+		if sch.Mode == sim.ChunkAll && !sch.EOFWithData && !sch.Seekable && f.Kind == sim.FaultNone && (len(piece)+res.Calls)%3 == 0 {
+			// the other public entry point: the whole piece as a string is the
+			// same delivery as all-at-once followed by a separate EOF (no draw
+			// from the tape: which pieces go this way depends on their length)
+			err = in.ExecuteString(string(piece))
+			res.Reads++
+			res.Print = (res.Print ^ uint64(len(piece))) * 1099511628211
+		} else {
+			r := sim.NewSimReader(piece, s2, f, tape)
+			res.Readers = append(res.Readers, r)
+			err = in.Execute(r.Reader())
+			res.Reads += r.Reads
+			res.Multi = res.Multi || r.MultiChunk
+			res.NoProg = res.NoProg || r.NoProgress
+			res.Print = (res.Print ^ r.Fingerprint()) * 1099511628211
+		}
 		if err != nil {
 			res.Err = err
 			res.Trail += fmt.Sprintf("[call %d: %s]", res.Calls, err.Error())
